@@ -51,6 +51,10 @@ type c15Plan struct {
 	// Prev: before the block under test the same verifier process has signed an EARLIER block of
 	// the same group with every member honest (process history: verification caches, stores)
 	Prev bool `json:"prev,omitempty"`
+	// Proc: messages travel through the processor's party bookkeeping (processor_party.go): early ones are
+	// parked under the block hash until the party has taken that key, later ones are routed to the party
+	Proc     bool   `json:"proc,omitempty"`
+	ProcSeed uint64 `json:"proc_seed,omitempty"`
 }
 
 type c15 struct{}
@@ -69,15 +73,15 @@ func (c15) Budget(tier string) runner.Budget {
 
 func (c15) Describe() runner.Description {
 	return runner.Description{
-		Rule: "each plan: group of n in [3,10] members keyed by the node's DKG code; a real proposed block; the verifier (member 0) runs the real signing party; every other member sends one or more verify messages in a seeded arrival order, some before the proposal is accepted (stored-message replay, which iterates a map): honest (share over this block's hash + beacon share over the previous beacon), or Byzantine: a valid signature over a DIFFERENT hash filed under this block's hash, another member's share under their own id, their own share twice, a share from a non-member id, garbage/identity points, valid block share with invalid beacon share and vice versa; in 40% of the plans the same verifier process has first signed an EARLIER block of the group with all members honest, and a Byzantine member replays its valid share (block or beacon) of that earlier block inside a message naming this block. After every delivery the block-signature and beacon share sets must contain only (member -> that member's valid share for this block hash / previous beacon), at most one per member; once the proposal is accepted and k honest members' messages are in (any order, any Byzantine traffic from at most n-k members interleaved) the party must have finalised within that delivery with a block signature and beacon that verify under the group public key (bounded liveness: 0 further steps). distinct_nontrivial = distinct (n, Byzantine pattern, early/late pattern) triples with at least one Byzantine message.",
+		Rule:        "each plan: group of n in [3,10] members keyed by the node's DKG code; a real proposed block; the verifier (member 0) runs the real signing party; every other member sends one or more verify messages in a seeded arrival order, some before the proposal is accepted (stored-message replay, which iterates a map): honest (share over this block's hash + beacon share over the previous beacon), or Byzantine: a valid signature over a DIFFERENT hash filed under this block's hash, another member's share under their own id, their own share twice, a share from a non-member id, garbage/identity points, valid block share with invalid beacon share and vice versa; in 40% of the plans the same verifier process has first signed an EARLIER block of the group with all members honest, and a Byzantine member replays its valid share (block or beacon) of that earlier block inside a message naming this block. In half of the plans the messages travel through the processor's party bookkeeping (real OnMessageVerify / loadOrNewSignParty: early messages are parked under the block hash and handed over, in a seeded order, once the party has taken that key), including forged messages that merely NAME another member as signer. After every delivery the block-signature and beacon share sets must contain only (member -> that member's valid share for this block hash / previous beacon), at most one per member; once the proposal is accepted and k honest members' messages are in (any order, any Byzantine traffic from at most n-k members interleaved) the party must have finalised within that delivery with a block signature and beacon that verify under the group public key (bounded liveness: 0 further steps). distinct_nontrivial = distinct (n, Byzantine pattern, early/late pattern) triples with at least one Byzantine message.",
 		Assumptions: []string{"round0's own acceptance checks (castor key, VRF, group selection, time window) are not part of C15: the party is positioned after them by an in-package driver", "at most n-k members are Byzantine when liveness is asserted; set-content checks hold for any number"},
 		Real:        []string{"consensus/logical SignParty, round1 (share collection), round2 (finalizer), stored-message replay", "consensus/net verify-message decoder", "consensus/groupsig (verify, recover)", "group_create.GetMemberSignPubKey + access.JoinedGroupStorage on the node's store", "core chain (GenerateBlock, AddBlockOnChain) of a booted node"},
 		Stub:        []string{"other group members (scripted)", "consensus network server (recording fake)", "ConsensusHelper of the chain"},
-		FaultKinds:  []string{"byz_other_hash", "byz_replay_member", "byz_duplicate", "byz_non_member", "byz_garbage", "byz_bad_beacon", "byz_bad_block_share", "byz_replay_old_block_share", "prior_block_signed_in_process", "early_arrival", "map_order_seed"},
+		FaultKinds:  []string{"byz_other_hash", "byz_replay_member", "byz_duplicate", "byz_non_member", "byz_garbage", "byz_bad_beacon", "byz_bad_block_share", "byz_replay_old_block_share", "prior_block_signed_in_process", "byz_forged_signer_name", "processor_level_parking", "early_arrival", "map_order_seed"},
 	}
 }
 
-var c15Kinds = []string{"otherhash", "otherblock", "replay", "dup", "nonmember", "garbage", "badbeacon", "badblock", "oldshare"}
+var c15Kinds = []string{"otherhash", "otherblock", "replay", "dup", "nonmember", "garbage", "badbeacon", "badblock", "oldshare", "forgename"}
 
 func (c15) Gen(seed uint64, tier string) json.RawMessage {
 	r := simrt.NewRand(seed)
@@ -86,6 +90,7 @@ func (c15) Gen(seed uint64, tier string) json.RawMessage {
 		p.N = r.Range(3, 6)
 	}
 	p.Prev = r.Chance(0.4)
+	p.Proc, p.ProcSeed = r.Chance(0.5), r.U64()
 	k := (p.N*51 + 99) / 100
 	maxByz := p.N - k
 	byz := map[int]bool{}
@@ -130,20 +135,23 @@ type c15Net struct{ calls []string }
 func (f *c15Net) SendGroupPingMessage(msg *model.CreateGroupPingMessage, receiver groupsig.ID) {}
 func (f *c15Net) SendGroupPongMessage(msg *model.CreateGroupPongMessage, groupId string, belongGroup bool) {
 }
-func (f *c15Net) SendCreateGroupRawMessage(msg *model.ParentGroupConsensusMessage, belongGroup bool) {}
+func (f *c15Net) SendCreateGroupRawMessage(msg *model.ParentGroupConsensusMessage, belongGroup bool) {
+}
 func (f *c15Net) SendCreateGroupSignMessage(msg *model.ParentGroupConsensusSignMessage, parentGid groupsig.ID) {
 }
-func (f *c15Net) SendGroupInitMessage(grm *model.GroupInitMessage)      {}
-func (f *c15Net) SendKeySharePiece(spm *model.SharePieceMessage)        {}
-func (f *c15Net) SendSignPubKey(spkm *model.SignPubKeyMessage)          {}
-func (f *c15Net) BroadcastGroupInfo(cgm *model.GroupInitedMessage)      {}
-func (f *c15Net) SendCandidate(ccm *model.ConsensusCastMessage)         {}
+func (f *c15Net) SendGroupInitMessage(grm *model.GroupInitMessage) {}
+func (f *c15Net) SendKeySharePiece(spm *model.SharePieceMessage)   {}
+func (f *c15Net) SendSignPubKey(spkm *model.SignPubKeyMessage)     {}
+func (f *c15Net) BroadcastGroupInfo(cgm *model.GroupInitedMessage) {}
+func (f *c15Net) SendCandidate(ccm *model.ConsensusCastMessage)    {}
 func (f *c15Net) SendVerifiedCast(cvm *model.ConsensusVerifyMessage, receiver groupsig.ID) {
 	f.calls = append(f.calls, "verified-cast")
 }
-func (f *c15Net) BroadcastNewBlock(cbm *model.ConsensusBlockMessage) { f.calls = append(f.calls, "new-block") }
-func (f *c15Net) JoinGroupNet(groupId string)                        {}
-func (f *c15Net) ReleaseGroupNet(groupIdentifier string)             {}
+func (f *c15Net) BroadcastNewBlock(cbm *model.ConsensusBlockMessage) {
+	f.calls = append(f.calls, "new-block")
+}
+func (f *c15Net) JoinGroupNet(groupId string)                                         {}
+func (f *c15Net) ReleaseGroupNet(groupIdentifier string)                              {}
 func (f *c15Net) ReqSharePiece(msg *model.ReqSharePieceMessage, receiver groupsig.ID) {}
 func (f *c15Net) ResponseSharePiece(msg *model.ResponseSharePieceMessage, receiver groupsig.ID) {
 }
@@ -271,6 +279,12 @@ func (c15) Exec(raw json.RawMessage, st *simrt.Stats, log *simrt.Log) *simrt.Vio
 	bh.GroupId = gid.Serialize()
 	bh.Signature, bh.Random = nil, nil
 	party := logical.SimNewSignParty(&bh, preBH, group, self.ID, nd.Chain, fnet, storage)
+	var proc *logical.SimProcessor
+	if p.Proc {
+		proc = logical.SimNewProcessor(&self, storage, nd.Chain, fnet)
+		st.Fault("processor_level_parking")
+	}
+	realKey := common.ToHex(bh.Hash.Bytes())
 
 	blockShare := func(i int) groupsig.Signature { return groupsig.Sign(sks[i], bh.Hash.Bytes()) }
 	beaconShare := func(i int) groupsig.Signature { return groupsig.Sign(sks[i], preBH.Random) }
@@ -321,6 +335,12 @@ func (c15) Exec(raw json.RawMessage, st *simrt.Stats, log *simrt.Log) *simrt.Vio
 				return c15Wire(bh.Hash, bh.Hash, groupsig.Sign(sks[j], prevHash.Bytes()).Serialize(), rs, idb)
 			}
 			return c15Wire(bh.Hash, bh.Hash, bs, groupsig.Sign(sks[j], prevBeacon).Serialize(), idb)
+		case "forgename":
+			// a forged message that NAMES another member as its signer (anybody can send that)
+			st.Fault("byz_forged_signer_name")
+			o := (j + 1 + m.Arg%(n-1)) % n
+			g := simrt.NewRand(uint64(m.Arg)*31 + p.Seed).Bytes(len(bs))
+			return c15Wire(bh.Hash, bh.Hash, g, groupsig.Sign(sks[j], []byte("forged")).Serialize(), ids[o].Serialize())
 		case "badbeacon":
 			st.Fault("byz_bad_beacon")
 			return c15Wire(bh.Hash, bh.Hash, bs, groupsig.Sign(sks[j], []byte("not the beacon")).Serialize(), idb)
@@ -385,7 +405,11 @@ func (c15) Exec(raw json.RawMessage, st *simrt.Stats, log *simrt.Log) *simrt.Vio
 		if err != nil || cvm == nil {
 			return
 		}
-		party.Update(cvm)
+		if proc != nil {
+			proc.OnMessageVerify(cvm) // parks it (no party under this hash yet) or routes it to the party
+		} else {
+			party.Update(cvm)
+		}
 		st.Ops++
 		if m.Kind == "honest" || m.Kind == "dup" {
 			honestIn[m.From%n] = true
@@ -407,6 +431,20 @@ func (c15) Exec(raw json.RawMessage, st *simrt.Stats, log *simrt.Log) *simrt.Vio
 		}
 		party.AcceptProposal()
 		accepted = true
+		if proc != nil {
+			// the party takes the block hash as its key; what was parked for it is delivered (seeded order)
+			parked := proc.Adopt(party, realKey)
+			pr := simrt.NewRand(p.ProcSeed)
+			for _, x := range pr.Perm(len(parked)) {
+				party.Update(parked[x])
+				if v := checkSets(-1); v != nil && taskViol == nil {
+					taskViol = v
+				}
+				if finishedAt < 0 && party.Finished() {
+					finishedAt = -2
+				}
+			}
+		}
 		if v := checkSets(-1); v != nil && taskViol == nil {
 			taskViol = v
 		}
